@@ -41,7 +41,7 @@ func scenC33(e *Env) func() {
 			dir := &p.Dirs[d]
 			n := e.Range(0, 12)
 			for i := 0; i < n; i++ {
-				dir.Writes = append(dir.Writes, Pick(e, 1, 1, 2, 7, 64, 300, 4096, 0, 5000))
+				dir.Writes = append(dir.Writes, Pick(e, 1, 1, 2, 7, 64, 300, 4096, 0, 5000, 5000, 70000, 140000))
 				dir.WriteDLms = append(dir.WriteDLms, Pick(e, 0, 0, 0, 1, 50))
 			}
 			for i := 0; i < 3; i++ {
@@ -103,6 +103,10 @@ func c33Pipe(e *Env, p *c33Plan) {
 				}
 				inv := simrt.Step()
 				n, err := wc.Write(buf)
+				// Write must not retain the slice: the caller is free to reuse it at once
+				for j := range buf {
+					buf[j] = '#'
+				}
 				if err != nil {
 					if n != 0 && n != sz {
 						e.Violation("stream/partial-write", "Write returned n=%d err=%v for %d bytes", n, err, sz)
